@@ -138,7 +138,7 @@ pub fn exercise_table(font_bytes: &[u8], tag: Tag, budget: i64) -> Outcome {
         match FontRef::new(font_bytes) {
             Err(e) => format!("{e:?}").hash(&mut w.hasher),
             Ok(f) => match table_by_tag(&f, tag) {
-                None => 1u8.hash(&mut w.hasher),
+                None => extra_readers(&f, tag, &mut w),
                 Some(Err(e)) => format!("{e:?}").hash(&mut w.hasher),
                 Some(Ok(t)) => w.table(&t, 0),
             },
@@ -148,6 +148,36 @@ pub fn exercise_table(font_bytes: &[u8], tag: Tag, budget: i64) -> Outcome {
     match r {
         Ok((d, v, c)) => Outcome { digest: d, visited: v, cut: c, panic: None },
         Err(p) => Outcome { digest: 0, visited: 0, cut: false, panic: Some(p) },
+    }
+}
+
+/// Tables without a typed traversal that are read as bare arrays with externally supplied arguments: loca in both offset
+/// formats (whatever head says), cvt
+fn extra_readers(f: &FontRef, tag: Tag, w: &mut Walk) {
+    use read_fonts::TableProvider;
+    match &tag.to_be_bytes() {
+        b"loca" => {
+            for long in [None, Some(false), Some(true)] {
+                match f.loca(long) {
+                    Ok(l) => {
+                        w.visited += 1;
+                        (l.len(), l.all_offsets_are_ascending()).hash(&mut w.hasher);
+                        for i in (0..l.len() + 2).take(2000) {
+                            l.get_raw(i).hash(&mut w.hasher);
+                        }
+                    }
+                    Err(e) => format!("{e:?}").hash(&mut w.hasher),
+                }
+            }
+        }
+        b"cvt " => match f.cvt() {
+            Ok(c) => {
+                w.visited += 1;
+                c.iter().take(5000).map(|v| v.get() as i64).sum::<i64>().hash(&mut w.hasher);
+            }
+            Err(e) => format!("{e:?}").hash(&mut w.hasher),
+        },
+        _ => 1u8.hash(&mut w.hasher),
     }
 }
 
@@ -183,8 +213,10 @@ pub fn main(args: &[String]) {
                     cursor_verif::set_logging(true);
                     let out = guarded(|| {
                         let mut w = Walk::new(60_000);
-                        if let Some(Ok(t)) = table_by_tag(&f, tag) {
-                            w.table(&t, 0);
+                        match table_by_tag(&f, tag) {
+                            Some(Ok(t)) => w.table(&t, 0),
+                            None => extra_readers(&f, tag, &mut w),
+                            _ => {}
                         }
                         w.visited
                     });
